@@ -234,6 +234,92 @@ struct AlgoEngine : EngineBase {
     return pts;
   }
 
+  // ---------------------------------------------------------------- heterogeneous ranges: the destination type D is constructed from the source type S
+  // (as the standard algorithms allow). The constructor really called is D(S&&) / D(const S&), which may throw whatever S's own move does;
+  // a relocation between different types can never be a byte copy.
+  template <class S, class D, class It>
+  long hetero_attempt(int algo, int family, int srck, int len, long k) {
+    cellsig(algo, (std::string(TI<S>::name()) + "->" + TI<D>::name()).c_str(), srck, len, k);
+    Arena<S> src;
+    Arena<D> dst;
+    const int st = stride_of(static_cast<It *>(nullptr));
+    std::vector<Val> vals;
+    {
+      MonScope m;
+      for (int i = 0; i < len; ++i) { Val v(i + 1, ++paycnt); vals.push_back(v); TI<S>::make(src.slots + i * st, v.key, v.pay); }
+    }
+    It first = mk(src.slots, 0, static_cast<It *>(nullptr));
+    It last = mk(src.slots + len * st, 0, static_cast<It *>(nullptr));
+    D *d = dst.slots + 1;
+    D *ret_d = nullptr;
+    S *ret_in = nullptr;
+    bool has_in = false;
+    const long live_lib0 = g_live_lib, harness0 = g_live_harness;
+    struct Call {
+      int family; It first, last; int len; D *d; D **ret_d; S **ret_in; bool *has_in;
+      void operator()() const {
+        switch (family) {
+          case 0: *ret_d = amc::uninitialized_copy(first, last, d); break;
+          case 1: *ret_d = amc::uninitialized_copy_n(first, len, d); break;
+          case 2: *ret_d = amc::uninitialized_move(first, last, d); break;
+          case 3: { std::pair<It, D *> r = amc::uninitialized_move_n(first, len, d); *ret_d = r.second; *ret_in = raw_of(r.first); *has_in = true; break; }
+          case 4: *ret_d = amc::uninitialized_relocate(first, last, d); break;
+          default: { std::pair<It, D *> r = amc::uninitialized_relocate_n(first, len, d); *ret_d = r.second; *ret_in = raw_of(r.first); *has_in = true; break; }
+        }
+      }
+    };
+    Call c = {family, first, last, len, d, &ret_d, &ret_in, &has_in};
+    long pts = armed(k, c);
+    const bool faulted = threw && threw_fault;
+    const bool reloc = family >= 4;
+    MonScope m;
+    if (threw && !faulted) violation("C15", "algo.unexpected_exception", fmt("%s (converting) threw %s", algoname(algo), threw_what.c_str()));
+    if (k >= 0 && faulted) ++n_faulted;
+    if (k >= 0 && !threw) violation("C15", "algo.exception_swallowed", fmt("the constructor fault #%ld was not propagated", k));
+    if (!threw) {
+      if (ret_d != d + len) violation("C15", "algo.returned_iterator", fmt("%s (converting) returned dest+%ld, expected dest+%d", algoname(algo), static_cast<long>(ret_d - d), len));
+      if (has_in && ret_in != src.slots + len * st) violation("C15", "algo.input_iterator_advance", fmt("%s (converting) advanced the input iterator by %ld elements, expected %d", algoname(algo), static_cast<long>((ret_in - src.slots) / st), len));
+      for (int i = 0; i < len; ++i) {
+        Val got = TI<D>::val(d[i]);
+        if (!got.same(vals[i])) { violation("C15", "algo.constructed_value", fmt("%s (converting): destination[%d] = %d.%u, expected %d.%u", algoname(algo), i, got.key, got.pay, vals[i].key, vals[i].pay)); break; }
+      }
+      if (g_live_lib - live_lib0 != len) violation("C15", "algo.object_count", fmt("%s (converting) over %d elements created %ld objects", algoname(algo), len, g_live_lib - live_lib0));
+      if (reloc) { if (harness0 - g_live_harness != len) violation("C15", "algo.relocate_source_alive", fmt("%s between different types: %ld of %d sources were destroyed", algoname(algo), harness0 - g_live_harness, len)); }
+      else check_sources<S>(src.slots, st, len, family >= 2 ? 1 : 0, algo);
+    } else {
+      if (g_live_lib != live_lib0) violation("C15", "algo.cleanup_on_throw", fmt("%s (converting): %ld object(s) created by the algorithm are still alive after the exception", algoname(algo), g_live_lib - live_lib0));
+      check_sources<S>(src.slots, st, len, reloc ? 3 : (family >= 2 ? 1 : 0), algo);
+    }
+    {
+      const unsigned char *g0 = reinterpret_cast<const unsigned char *>(dst.slots);
+      for (size_t i = 0; i < sizeof(D); ++i) if (g0[i] != 0xE7) { violation("C15", "algo.guard_before_destination", "the slot before the destination range was written"); break; }
+      const unsigned char *g1 = reinterpret_cast<const unsigned char *>(d + len);
+      for (size_t i = 0; i < sizeof(D); ++i) if (g1[i] != 0xE7) { violation("C15", "algo.guard_after_destination", "the slot after the destination range was written"); break; }
+    }
+    if (!threw) destroy_all(d, 1, len);
+    if (!(reloc && !threw)) destroy_all(src.slots, st, len);
+    if (g_live_lib != 0 || g_live_harness != 0) {
+      if (!g_cut) violation("C15", "algo.double_or_missing_destroy", fmt("after clean-up %ld library / %ld harness objects remain (converting %s)", g_live_lib, g_live_harness, algoname(algo)));
+      g_live_lib = 0;
+      g_live_harness = 0;
+    }
+    return pts;
+  }
+  template <class S, class D, class It>
+  void hetero_cells(int algo, int family, int srck) {
+    for (int len = 0; len <= kMaxLen && !g_cut; ++len) {
+      long M = hetero_attempt<S, D, It>(algo, family, srck, len, -1);
+      n_points += static_cast<uint64_t>(M);
+      for (long k = 0; k < M && !g_cut; ++k) hetero_attempt<S, D, It>(algo, family, srck, len, k);
+    }
+  }
+  template <class S, class D>
+  void hetero_family(int algo, int family) {
+    hetero_cells<S, D, S *>(algo, family, S_PTR);
+    if (!g_cut) hetero_cells<S, D, StrideIt<S, std::random_access_iterator_tag> >(algo, family, S_RA);
+    if (!g_cut) hetero_cells<S, D, StrideIt<S, std::forward_iterator_tag> >(algo, family, S_FWD);
+  }
+
   // mode: 0 sources intact, 1 sources alive (maybe moved-from), 2 sources must be gone (relocated), 3 sources must all be alive (relocate threw)
   template <class T> void check_sources(T *, int, int, int, int, typename std::enable_if<!TI<T>::tracked>::type * = nullptr) {}
   template <class T>
@@ -528,10 +614,10 @@ struct AlgoEngine : EngineBase {
     switch (algo) {
       case A_CONSTRUCT_AT: construct_cells<int>(); construct_cells<TC4>(); construct_cells<TR>(); construct_cells<NTR>(); construct_cells<NTR_TM>(); construct_cells<NTR_NCTM>(); break;
       case A_DESTROY_AT: case A_DESTROY: case A_DESTROY_N: destroy_family<int>(algo); destroy_family<TC4>(algo); destroy_family<TR>(algo); destroy_family<NTR>(algo); break;
-      case A_UCOPY: case A_UCOPY_N: { int f = algo - A_UCOPY; range_family<int>(algo, f); range_family<TC4>(algo, f); range_family<TR>(algo, f); range_family<NTR>(algo, f); range_family<NTR_TM>(algo, f); range_family<NTR_NCTM>(algo, f); break; }
-      case A_UMOVE: case A_UMOVE_N: { int f = 2 + algo - A_UMOVE; range_family<int>(algo, f); range_family<TC4>(algo, f); range_family<TR>(algo, f); range_family<NTR>(algo, f); range_family<NTR_TM>(algo, f); range_family<NTR_NCTM>(algo, f); break; }
+      case A_UCOPY: case A_UCOPY_N: { int f = algo - A_UCOPY; range_family<int>(algo, f); range_family<TC4>(algo, f); range_family<TR>(algo, f); range_family<NTR>(algo, f); range_family<NTR_TM>(algo, f); range_family<NTR_NCTM>(algo, f); hetero_family<NTR, NTR_MO>(algo, f); hetero_family<TR, NTR>(algo, f); break; }
+      case A_UMOVE: case A_UMOVE_N: { int f = 2 + algo - A_UMOVE; range_family<int>(algo, f); range_family<TC4>(algo, f); range_family<TR>(algo, f); range_family<NTR>(algo, f); range_family<NTR_TM>(algo, f); range_family<NTR_NCTM>(algo, f); hetero_family<NTR, NTR_MO>(algo, f); hetero_family<TR, NTR>(algo, f); break; }
       case A_UDEFAULT: case A_UDEFAULT_N: case A_UVALUE: case A_UVALUE_N: { int f = algo - A_UDEFAULT; ctor_family<int>(algo, f); ctor_family<TC4>(algo, f); ctor_family<TR>(algo, f); ctor_family<NTR>(algo, f); break; }
-      case A_URELOC: case A_URELOC_N: { int f = 4 + algo - A_URELOC; range_family<int>(algo, f); range_family<TC4>(algo, f); range_family<TR>(algo, f); range_family<NTR>(algo, f); range_family<NTR_TM>(algo, f); range_family<NTR_NCTM>(algo, f); break; }
+      case A_URELOC: case A_URELOC_N: { int f = 4 + algo - A_URELOC; range_family<int>(algo, f); range_family<TC4>(algo, f); range_family<TR>(algo, f); range_family<NTR>(algo, f); range_family<NTR_TM>(algo, f); range_family<NTR_NCTM>(algo, f); hetero_family<NTR, NTR_MO>(algo, f); hetero_family<TR, NTR>(algo, f); break; }
       case A_RELOC_AT: relocate_at_cells<int>(); relocate_at_cells<TC4>(); relocate_at_cells<TR>(); relocate_at_cells<NTR>(); relocate_at_cells<NTR_TM>(); relocate_at_cells<NTR_NCTM>(); break;
       case A_OVERLAP: overlap_cells<int>(); overlap_cells<TC4>(); overlap_cells<TR>(); break;
       case A_DESTROY_AT_ARRAY: destroy_array_cells<int>(); destroy_array_cells<TR>(); destroy_array_cells<NTR>(); break;
